@@ -90,6 +90,7 @@ def install(c):
     if _AX is None:
         _AX = axioms()
     c.axiom_once('abstract-axioms', lambda: _AX)
+    c.no_crosscheck = True  # abstract states are concretised up to observation only
 
 
 def wf_fact(c, premise_terms, new_term, new_len):
